@@ -5,7 +5,7 @@ SPEC = dict(
     targets=["Properties/C15.vo", "Corr/C15.vo"],
     args=lambda tier, seed: ["-seed", seed, "-tier", tier],
     search_args=lambda seed: ["-seed", seed, "-tier", "search"],
-    shard=1300,
+    shard=400,
     patterns={},
     rule="",
     trusted_base=[KERNEL, CORR_TB],
